@@ -27,6 +27,24 @@ CHECKS = {
  "C06": dict(cat="fault_enumeration", ref="DESIGN.md 3.6, 4/C06", tech="fault-position enumeration and property-based fault-set generation under a schedule-owning deterministic scheduler, differential against single-thread mode",
    text="Every fault position k in 0..=frames x {read error, out-of-range sample} for 1..=8-frame inputs x workers 1..=4 x 8 schedules (16 frames / 6 workers / 48 schedules in thorough), plus generated fault sets, worker counts and schedules with fault-free controls; oracle under the scheduler: the call returns (exact dead-lock detection), result kind equals single-thread mode on the same faulty source, no thread panicked, no thread alive at return, fault-free runs give every frame exactly once and identical bytes.",
    note="Termination is decided exactly for the generated schedules at hook-point granularity; a watchdog kill is reported as inconclusive, never as a violation."),
+ "C07": dict(cat="exploration", ref="DESIGN.md 4/C07", tech="boundary-grid enumeration (all single fields and all pairs) plus property-based random assignments against an independent documented-range predicate; accepted configurations are round-tripped on a probe corpus",
+   text="Complete enumeration of every configuration field at its boundary values (min-1, min, max, max+1, 2^8+k, 2^32+k, usize::MAX; NaN, +-inf, -0.0, 1+ulp, -ulp for the window parameter) with all other fields valid, and of all pairs of such values, plus proptest-generated full assignments from a valid and an invalid generator; oracle: a predicate written from the documentation must agree in both directions with into_verified().is_ok(), the error must name an offending field, and every accepted configuration encodes a probe corpus of 30 inputs without panic and losslessly (reference decoder).",
+   note="The documented ranges are transcribed by hand from the doc comments of config.rs and constant.rs; the probe corpus is small (50 and 700 samples), deeper input coverage of accepted configurations is C01's."),
+ "C08": dict(cat="exploration", ref="DESIGN.md 4/C08", tech="property-based differential testing of count_bits() against three sinks (byte-backed, word-backed, counting) and an independent u128 count for constructed residuals",
+   text="For every component of generated streams (stream, STREAMINFO, frames before and after precompute_bitstream, headers, subframes, residuals) and of their parsed counterparts count_bits() must equal the bits written to MemSink<u8>, to MemSink<u64> and to a counting sink, frames must be whole bytes, parents must equal the sum of their children; directly constructed residuals with quotient sums on both sides of 2^32 are compared with an independent u128 count through the counting sink; frame headers are sampled boundary-dense over the 31-bit frame-number and 36-bit start-sample ranges.",
+   note="Sinks are judged under C11; giant residuals are only counted, never materialised."),
+ "C11": dict(cat="exploration", ref="DESIGN.md 4/C11", tech="model-based property testing: generated operation histories on both in-memory sinks and a minimal user sink against a Vec<bool> bit-string model, plus an exhaustive (offset x type x width x pattern) grid",
+   text="Generated histories vec(op, 1..40) over every BitSink operation and operand type are applied step by step to MemSink<u8>, MemSink<u64>, a user sink implementing only the required methods, and an ideal MSB-first bit string; lengths, bits, byte exports and zero tail bits must agree after every step. A complete grid (start offset 0..=63 x operand type x width 0..=bits(T) x three value patterns x msbs/lsbs, followed by a sentinel write) is enumerated in both tiers; components of generated streams are serialised into all three sinks.",
+   note="The model is a plain Vec<bool>; only the public BitSink API is exercised."),
+ "C12": dict(cat="fault_enumeration", ref="DESIGN.md 4/C12", tech="fault-position enumeration: a user sink failing at every operation index of every component of crafted and proptest-generated streams",
+   text="For each of 12 crafted streams (all subframe kinds, mono/stereo, 1..=4 frames, with/without extra metadata, precomputed or not) and for generated streams, and for each component (stream, frames, headers, subframes, residuals, STREAMINFO), the user sink fails on every operation index k in 0..total_ops; oracle: write returns Err(OutputError::Sink), never panics, never Ok, and the bits accepted before the failure are a prefix of the reference bit string.",
+   note="The failing sink implements only the required BitSink methods, so the default methods are on the path as well."),
+ "C15": dict(cat="exploration", ref="DESIGN.md 4/C15", tech="property-based round-trip testing of parser against writer on generated streams, frames and subframes, cross-checked with the harness' reference reader",
+   text="Generated streams (all entry points, optional extra metadata blocks, many-small-frame layouts) must be consumed completely by parser::stream, verify, re-serialise to identical bytes and decode (Decode) to the original samples; every frame and subframe serialised alone must round-trip through parser::frame / parser::subframe with consumed bits = count_bits; orders, precision, shift, coefficients, partition orders and Rice parameters must agree with the reference reader's trace.",
+   note="Sampling; the reference reader is cross-checked against claxon under C01."),
+ "C16": dict(cat="fault_enumeration", ref="DESIGN.md 4/C16", tech="exhaustive corruption enumeration (all single-bit flips, all 2..8-bit bursts, all truncations) of small emitted streams plus property-based random bytes and CRC-repaired structure-aware mutations, panic and same-audio oracles",
+   text="On 8 (thorough: 24 + generated) small emitted streams every single-bit flip and every burst of 2..=8 bits at every bit position and truncation at every byte are parsed: parser::stream must never unwind, and an accepted mutant whose altered bits lie inside one frame must decode to the original audio. Random byte strings and structure-aware frame mutations with CRC-8/CRC-16 recomputed (so the code behind the checksums is reached) are judged by the panic oracle for parsing and for decoding what the parser accepted.",
+   note="A CRC-16 collision for a boundary-moving mutation is possible in principle (none observed); decoding of parser-accepted mutants is included because the property's anchors name decode.rs arithmetic on parsed values."),
 }
 
 NOT_YET = {}
